@@ -25,7 +25,7 @@ CONSTANTS Depth, MaxCfg, MaxCtx, MaxSug, MaxStr,
 
 AllSetterNames == {"suggestion_include_english", "phonetic_suggestion", "fixed_suggestion", "fixed_auto_vowel", "fixed_auto_chandra",
             "fixed_traditional_kar", "fixed_old_reph", "fixed_numpad", "fixed_old_kar_order", "ansi_encoding", "smart_quote"}
-Setters == IF AllSetters THEN AllSetterNames ELSE {"phonetic_suggestion", "ansi_encoding"}
+Setters == IF AllSetters THEN AllSetterNames ELSE {"smart_quote", "ansi_encoding"}
 
 VARIABLES cfgs,   \* handle -> [live, sug : BOOLEAN]           configurations
           ctxs,   \* handle -> [live, sug, len, shown]         contexts (sug = list-style suggestions; len = typed characters)
@@ -43,14 +43,15 @@ Init == cfgs = <<>> /\ ctxs = <<>> /\ sugs = <<>> /\ strs = <<>> /\ calls = <<>>
 
 ConfigNew ==
     /\ Cardinality(Live(cfgs)) < MaxCfg /\ Len(cfgs) < MaxCfg + 1
-    /\ \E s \in BOOLEAN :
+    /\ \E s \in BOOLEAN, lay \in {"phonetic", "fixed"} :      \* the harness sets the layout file right after riti_config_new
           /\ cfgs' = Append(cfgs, [live |-> TRUE, sug |-> s])
-          /\ Call([f |-> "riti_config_new", h |-> New(cfgs), a |-> NoH, b |-> IF s THEN 1 ELSE 0, idx |-> ""])
+          /\ Call([f |-> "riti_config_new", h |-> New(cfgs), a |-> NoH, b |-> IF s THEN 1 ELSE 0, idx |-> lay])
     /\ UNCHANGED <<ctxs, sugs, strs>>
 ConfigSet ==
     \E c \in Live(cfgs), name \in Setters, v \in BOOLEAN :
         /\ Cardinality({i \in 1..Len(calls) : calls[i].b < 2 /\ calls[i].idx = "set"}) < 2        \* at most two setter calls per sequence
-        /\ cfgs' = IF name = "phonetic_suggestion" THEN [cfgs EXCEPT ![c].sug = v] ELSE cfgs
+        /\ name \notin {"phonetic_suggestion", "fixed_suggestion"}     \* (the list option is fixed when the configuration is made)
+        /\ cfgs' = cfgs
         /\ Call([f |-> "riti_config_set_" \o name, h |-> c, a |-> NoH, b |-> IF v THEN 1 ELSE 0, idx |-> "set"])
         /\ UNCHANGED <<ctxs, sugs, strs>>
 ConfigFree ==
